@@ -7,7 +7,7 @@ from fractions import Fraction
 
 from ..astu import U, S, has, same, walk_shallow, call_name, calls_in, kwarg, linform, lin_str, monomial, mono_str, names_in, _num
 from ..core import AnalysisError, Mutant, Rule, Twin
-from ..idioms import for_loops, target_names
+from ..idioms import for_loops, target_names, none_default
 
 ID = "C07"
 EQ = "chempy/equilibria.py"
@@ -397,10 +397,61 @@ def r3b_inverse(ctx):
     ctx.check(has(fn, "return self.pre_processor(init_concs, init_concs)[0]"), EQS + ":NumSysLinTanh.internal_x0_cb", "x0=pre(inits)", "internal x0 must be the pre-processed initial concentrations", node=fn)
 
 
+def r4_helpers_defaults(ctx):
+    """start values of the product helpers; which constants a formulation uses; defaults of the constant accessors"""
+    eqq = ctx.func(CHEM, "equilibrium_quotient")
+    a = CHEM + ":equilibrium_quotient"
+    inits = [n for n in walk_shallow(eqq) if isinstance(n, ast.Assign) and U(n.targets[0]) == "tot"]
+    ok = len(inits) == 2 and U(inits[0].value) == "1" and U(inits[1].value) == "np.ones(concs.shape[0])"
+    ctx.check(ok, a, "empty-product=1", "the quotient must start from 1 (scalar) / ones (one per row); found %s" % [U(i.value) for i in inits], node=eqq)
+    ctx.check(has(eqq, "if not hasattr(concs, 'ndim') or concs.ndim == 1: tot = 1 else: tot = np.ones(concs.shape[0]) concs = concs.T"), a, "per-row-quotients",
+              "a 2-D array gives one quotient per row (iterate over its transpose), anything else a scalar", node=eqq)
+    m = ctx.mod(UTIL)
+    for f in ast.walk(m.tree):
+        if isinstance(f, ast.FunctionDef) and f.name == "prodpow" and "for row in exponents" in U(f):
+            ctx.check(has(f, "res = 1 for b, e in zip(bases, row): res *= b ** e result.append(res)"), UTIL + ":prodpow", "fallback-empty-product=1", "the pure-python product must start from 1 for every row", node=f)
+    md = ctx.func(UTIL, "mat_dot_vec")
+    ctx.check(has(md, "if iter_term is None: return [vec_dot_vec(row, iter_vec) for row in iter_mat] else:"), UTIL + ":mat_dot_vec", "term-added-iff-given",
+              "the constant term (-ln K) is added exactly when one is given", node=md)
+    vd = ctx.func(UTIL, "vec_dot_vec")
+    rm = ctx.func(UTIL, "reducemap")
+    ctx.check(has(vd, "return reducemap((vec1, vec2), add, mul)") and has(rm, "return reduce(reduce_op, map(map_op, *args))"), UTIL + ":vec_dot_vec", "dot=sum-of-products", "dot product is sum of pairwise products", node=vd)
+    ie = ctx.func(EQS, "_NumSys._inits_and_eq_params")
+    a = EQS + ":_NumSys._inits_and_eq_params"
+    ctx.check(has(ie, "if not self.new_eq_params: assert not eq_params") and has(ie, "eq_params = None"), a, "own-constants-only-when-asked",
+              "the constants passed as parameters are replaced by the system's own only when new_eq_params is false", node=ie)
+    init = ctx.func(EQS, "_NumSys.__init__")
+    for attr in ("eqsys", "rref_equil", "rref_preserv", "precipitates", "new_eq_params"):
+        ctx.check(has(init, "self.%s = %s" % (attr, attr)), EQS + ":_NumSys.__init__", "stores:" + attr, "configuration `%s` must be stored under its own name" % attr, node=init)
+    ec = ctx.func(EQ, "EqSystem.eq_constants")
+    d = none_default(ec, "eq_params")
+    ctx.check(d is not None and U(d) == "[eq.param for eq in self.rxns]", EQ + ":EqSystem.eq_constants", "default=own-constants", "given constants must be used; the default is each reaction's own constant in order", node=ec)
+    sc = ctx.func(EQ, "EqSystem.stoichs_constants")
+    d = none_default(sc, "eq_params")
+    ctx.check(d is not None and U(d) == "self.eq_constants()", EQ + ":EqSystem.stoichs_constants", "default=eq_constants", "given constants must be used; the default is self.eq_constants()", node=sc)
+    sn = ctx.func(EQ, "EqSystem._SymbolicSys_from_NumSys")
+    for attr, kw, val in (("pre_processor", "pre_processors", "[ns.pre_processor]"), ("post_processor", "post_processors", "[ns.post_processor]"), ("internal_x0_cb", "internal_x0_cb", "ns.internal_x0_cb")):
+        ctx.check(has(sn, "if ns.%s is not None: symb_kw['%s'] = %s" % (attr, kw, val)), EQ + ":EqSystem._SymbolicSys_from_NumSys", "wired:" + attr,
+                  "a formulation's %s must be handed to the solver exactly when it defines one (else its variables are read as concentrations)" % attr, node=sn)
+    ctx.check(has(sn, "SymbolicSys.from_callback(ns.f, self.ns, nparams=self.ns + (self.nr if new_eq_params else 0), **symb_kw)"), EQ + ":EqSystem._SymbolicSys_from_NumSys", "f-ns-nparams",
+              "the residual callback is ns.f over ns unknowns with c0 (+ K when they are parameters) as parameters", node=sn)
+    for kw in ("rref_equil", "rref_preserv", "new_eq_params"):
+        ctx.check(has(sn, "%s=%s" % (kw, kw)), EQ + ":EqSystem._SymbolicSys_from_NumSys", "forwards:" + kw, "option %s must reach the formulation under its own name" % kw, node=sn)
+    for q in ("EqSystem._solve", "EqSystem.root"):
+        fn = ctx.func(EQ, q)
+        ctx.check(has(fn, "params = np.concatenate((init_concs, [float(elem) for elem in self.eq_constants()]))"), EQ + ":" + q, "params=c0++K",
+                  "solver parameters are the initial concentrations followed by every equilibrium constant", node=fn)
+        ctx.check(has(fn, "x, sol = neqsys.solve(x0, params, **kwargs)"), EQ + ":" + q, "solve(x0,params)", "the root finder gets (guess, parameters) in that order", node=fn)
+        for kw in ("rref_equil", "rref_preserv", "precipitates"):
+            ctx.check(has(fn, "%s=kwargs.pop('%s'," % (kw, kw)), EQ + ":" + q, "forwards:" + kw, "option %s must be forwarded under its own name" % kw, node=fn)
+        ctx.check(has(fn, "sane = self._result_is_sane(init_concs, x)"), EQ + ":" + q, "sanity-of-result", "the sanity verdict must be about (initial, result)", node=fn)
+
+
 RULES = [
     Rule("C07-R1", r1_blocks, 18, "block structure and wiring of both formulations"),
     Rule("C07-R2", r2_k_opposite_q, 14, "K on the other side of Q; helpers; rref log/exp"),
     Rule("C07-R3", r3_transforms, 11, "variable transform in f == post_processor map"),
+    Rule("C07-R4", r4_helpers_defaults, 32, "helper start values, constant defaults, option forwarding"),
     Rule("C07-R3b", r3b_inverse, 6, "pre_processor is the inverse of post_processor (peel)", tier="thorough"),
 ]
 
